@@ -105,14 +105,15 @@ theorem implParseC_eq (M : Machine σ ε) (st : σ) (cache data : List UInt8) (a
 
 /-! ### `Parse` as the engine calls it, and chains of calls — the functions the driver executes -/
 
-/-- Parse with the engine's ReadLimit test in front (limit = 0: disabled); error 11 = ErrTooLong -/
+/-- Parse with the engine's ReadLimit test in front (limit = 0: disabled); error 11 = ErrTooLong. As in Go, an empty
+    `data` returns before the test (`if len(data) == 0 { return nil }`). -/
 def parseL (M : Machine σ ε) (limit : Nat) (st : σ) (cache data : List UInt8) (acc : List ε) : Res σ ε :=
-  if cache ≠ [] ∧ limit > 0 ∧ cache.length + data.length > limit then ⟨acc, .inr 11⟩
+  if data ≠ [] ∧ cache ≠ [] ∧ limit > 0 ∧ cache.length + data.length > limit then ⟨acc, .inr 11⟩
   else implParse M st cache data acc
 
 /-- the same with the checked loop; 998 = the Go code would panic on a slice/index expression (`parseLC_eq`: never) -/
 def parseLC (M : Machine σ ε) (limit : Nat) (st : σ) (cache data : List UInt8) (acc : List ε) : Res σ ε :=
-  if cache ≠ [] ∧ limit > 0 ∧ cache.length + data.length > limit then ⟨acc, .inr 11⟩
+  if data ≠ [] ∧ cache ≠ [] ∧ limit > 0 ∧ cache.length + data.length > limit then ⟨acc, .inr 11⟩
   else (implParseC M st cache data acc).getD ⟨acc, .inr 998⟩
 
 theorem parseLC_eq (M : Machine σ ε) (limit : Nat) (st : σ) (cache data : List UInt8) (acc : List ε) :
@@ -133,7 +134,7 @@ def feedAllL (M : Machine σ ε) (limit : Nat) : σ → List UInt8 → List (Lis
 def NoTrip (M : Machine σ ε) (limit : Nat) : σ → List UInt8 → List (List UInt8) → List ε → Prop
   | _, _, [], _ => True
   | st, cache, seg :: segs, acc =>
-    ¬ (cache ≠ [] ∧ limit > 0 ∧ cache.length + seg.length > limit) ∧
+    ¬ (seg ≠ [] ∧ cache ≠ [] ∧ limit > 0 ∧ cache.length + seg.length > limit) ∧
     match implParse M st cache seg acc with
     | ⟨acc', .inl (st', cache')⟩ => NoTrip M limit st' cache' segs acc'
     | _ => True
